@@ -30,6 +30,11 @@ inductive Res (α : Type) where
   | panic : Res α
 deriving Repr, DecidableEq
 
+/-- comma-ok lookups: a missing value is the error return. -/
+def Res.ofOption {α : Type} : Option α → Res α
+  | some a => .ok a
+  | none => .err
+
 /-! ### Keys, versions, requirement types (the fragments the API client produces) -/
 
 /-- `resolve.VersionType`. -/
